@@ -128,20 +128,20 @@ let handle kind a =
           cres_s hexs v.v_others ] in
       Some (String.concat ";" (List.map (fun (r, v) ->
         cres_s (fun k -> string_of_int (int_of_nat k)) r ^ "/" ^ view v) es))
-  | "samr" ->
+  | ("samr" | "vcfr") as k ->
       let cap = nat_of_int (int_of_string a.(1)) in
-      let (l, pos) = run_sam_obs cap (mk a.(0) a.(2)) in
-      Some (String.concat "," (List.map (fun ((r, _), _) -> cres_s (fun k -> string_of_int (int_of_nat k)) r) l)
-            ^ "|" ^ string_of_int (int_of_nat pos))
-  | "vcfr" ->
-      let cap = nat_of_int (int_of_string a.(1)) in
-      let (l, pos) = run_vcf_view_obs cap (mk a.(0) a.(2)) in
+      let (l, pos) = (if k = "samr" then run_sam_view_obs else run_vcf_view_obs) cap (mk a.(0) a.(2)) in
       Some (String.concat "," (List.map (fun (r, v) ->
               match r with
               | COk k when int_of_nat k > 0 ->
                   string_of_int (int_of_nat k) ^ "/" ^ String.concat ":" (List.map hex_of_bytes v)
               | _ -> cres_s (fun k -> string_of_int (int_of_nat k)) r) l)
             ^ "|" ^ string_of_int (int_of_nat pos))
+  | "gtfl" ->
+      let cap = nat_of_int (int_of_string a.(1)) in
+      let (ls, st') = run_read_lines cap (mk a.(0) a.(2)) in
+      Some (String.concat ";" (List.map (fun (n, l) -> string_of_int (int_of_nat n) ^ ":" ^ hex_of_bytes l) ls)
+            ^ "|Ok|" ^ string_of_int (hexlen a.(0) - int_of_nat (b_left st')))
   | _ -> None
 
 let () = run_driver handle
